@@ -27,7 +27,7 @@ func init() {
 
 type c12Scen struct {
 	Stream  string `json:"stream"`  // fmp4-va fmp4-v+a ts-va ll
-	Fault   string `json:"fault"`   // none 404 500 neterr stall ontracks 503stall timeout
+	Fault   string `json:"fault"`   // none 404 500 neterr stall ontracks 503stall timeout truncated
 	At      int    `json:"at"`      // request index of the fault
 	Closers int    `json:"closers"` // 0, 1 or 2 closer threads (each calls Close once)
 	Bound   int    `json:"bound"`
@@ -164,6 +164,12 @@ func c12Harness(sc c12Scen) vsched.Harness {
 						// what http.Client.Timeout produces: a transport error that is a context.DeadlineExceeded although the
 						// client's own context is alive
 						return srvResp{ErrIs: context.DeadlineExceeded}
+					case "truncated":
+						// the connection drops in the middle of a body whose length was announced
+						if b, ok := res[name]; ok && len(b) > 1 {
+							return srvResp{Status: 200, Body: b, Trunc: true}
+						}
+						return srvResp{Err: true}
 					case "503stall":
 						// a rejection whose body never arrives (a proxy that keeps the connection open)
 						return srvResp{Status: 503, Stall: true}
@@ -310,6 +316,9 @@ func c12Harness(sc c12Scen) vsched.Harness {
 					want["http500"] = true
 				case faultHit && sc.Fault == "503stall":
 					want["http503"] = true
+				case faultHit && sc.Fault == "truncated":
+					want["unexpected-eof"] = true
+					want["neterr"] = true // (resources this scenario cannot truncate get a transport error instead)
 				case faultHit && (sc.Fault == "neterr" || sc.Fault == "timeout"):
 					want["neterr"] = true
 				case faultHit && sc.Fault == "stall":
@@ -345,6 +354,8 @@ func c12Harness(sc c12Scen) vsched.Harness {
 					got = "http500"
 				case strings.Contains(s, "bad status code: 503"):
 					got = "http503"
+				case strings.Contains(s, "unexpected EOF"):
+					got = "unexpected-eof"
 				case strings.Contains(s, "injected transport error"):
 					got = "neterr"
 				case st.waitErr == errC12OnTracks || strings.Contains(s, errC12OnTracks.Error()):
@@ -388,8 +399,8 @@ func c12Scens(tier string) []c12Scen {
 		for _, stream := range []string{"fmp4-va", "fmp4-v+a", "ts-va", "ll", "ts-big"} {
 			nreq := map[string]int{"fmp4-va": 4, "fmp4-v+a": 9, "ts-va": 3, "ll": 8, "ts-big": 2}[stream]
 			nseg := 2
-			for _, fault := range []string{"none", "404", "500", "neterr", "stall", "ontracks", "503stall", "timeout"} {
-				if (fault == "503stall" || fault == "timeout") && policy != 0 && tier != "thorough" {
+			for _, fault := range []string{"none", "404", "500", "neterr", "stall", "ontracks", "503stall", "timeout", "truncated"} {
+				if (fault == "503stall" || fault == "timeout" || fault == "truncated") && policy != 0 && tier != "thorough" {
 					continue
 				}
 				ats := []int{0}
